@@ -101,6 +101,20 @@ example :
     (s.procs 3).map (·.mode) = some (.finished (.err 9)) ∧ (s.procs 4).map (·.mode) = some (.finished (.err 9)) := by
   decide
 
+/-- **reads_once.** For either flag the skeleton reads the model file exactly once, as its very first op, and the entry
+is named after the hash of that text: the text a run answers for is the one text it read.  Saving the model file with
+another text later in the run changes nothing for the run — this is what reduces histories with an edit *during* a run
+(harness event `ed`) to `spawn` on the text that was read (`cache_rig.reduce_edits`). -/
+theorem reads_once (flag : Bool) :
+    ((program Gen.Cache.loadModelOps flag).map (·.op)).head? = some Op.readText ∧
+    ((program Gen.Cache.loadModelOps flag).filter (fun g => g.op == Op.readText)).length = 1 ∧
+    Gen.Cache.keyIsHashOfModelText = true := by
+  cases flag <;> decide
+
+/-- The cache write gives up on a model that is nested too deeply for the pickler (`except RecursionError` around the
+dump) instead of failing a run that succeeds without caching (defect of the pinned tree, repaired). -/
+theorem dump_recursion_guarded : Gen.Cache.dumpRecursionGuarded = true := by decide
+
 /-- Every class of `intermediate/_types.py` with pickling hooks recomputes in `__setstate__` exactly
 what `__getstate__` drops, with the same `_compute_*` function FED WITH THE SAME SOURCE ATTRIBUTE as on
 the constructor/setter path (a recomputation is named `<fn><-<source attribute>` in Gen), and drops
